@@ -163,10 +163,8 @@ def check(case, ctx):
         ok, r = ctx.call(cg.tx.supergates, c, case["supercircuit"])
     finally:
         cg.tx.limit_fanin = orig
-    if not ok and case["supercircuit"] and isinstance(r, ValueError) and net.outputs and net.outputs <= net.inputs():
-        # the only output is itself a primary input: there is no gate to decompose; the library refuses loudly
-        ctx.reject("supercircuit_of_gateless_cone")
-        return
+    if case["supercircuit"] and net.outputs and net.outputs <= net.inputs():
+        ctx.count("supercircuit_of_feedthrough_output")  # nothing to decompose: the super-circuit is the feed-through
     if not ok and case["supercircuit"] and len(net.outputs) > 1 and isinstance(r, ValueError):
         ctx.reject("supercircuit_needs_single_output")
         return
